@@ -10,6 +10,7 @@ import snowflake.connector.errors
 from hypothesis import strategies as st
 
 from vf.engine import Ctx, Facet, InvalidCase, Prop
+from vf.model import sfref
 from vf.util import close_instance, etype_name, new_instance, run, same_value, sql_lit, sql_str
 
 SIMPLE_KEYS = ["a", "b", "k1", "A", "key"]
@@ -26,37 +27,89 @@ MISSING = object()
 
 CASTS = [None, None, "VARCHAR", "STRING", "TEXT", "INT", "NUMBER(10,2)", "FLOAT", "BOOLEAN"]
 WRAPPERS = [None, None, None, "UPPER", "LOWER", "TRIM", "ARRAY_SIZE"]
-CONTEXTS = ["select", "select", "eq", "gt-and", "or", "not", "arith", "between", "in", "is-null", "case-when", "where"]
 SYNTAXES = ["colon", "bracket", "mixed", "get_path"]
 SOURCES = ["literal", "column", "try_parse_json"]
 
 
+CONTEXTS = ["select", "eq", "gt-and", "or", "not", "arith", "between", "in", "is-null", "case-when", "where", "not-direct", "and-direct", "where-direct"]
+_sib = st.one_of(st.none(), st.booleans(), st.integers(-9, 9), st.sampled_from(["s", "", "x y"]), st.just([]), st.just({}))
+
+
 @st.composite
 def _path_case(draw, tier):
-    doc = draw(_container)
+    """Construction, not rejection: the leaf kind is chosen first, then the path, then a document is built around it,
+    then a cast / wrapper / context that is meaningful for that kind."""
+    leaf_kind = draw(st.sampled_from(["int", "int", "float", "str", "str", "numeric-str", "bool", "bool", "list", "dict", "null", "missing"]))
+    leaf = {
+        "int": st.integers(-1000, 1000), "float": st.sampled_from([0.5, -2.25, 1.5, 100.125]),
+        "str": st.sampled_from(["str", "", "Mixed Case", "  pad  ", "it's", 'q"q', "a\\b", "é", "true"]), "numeric-str": st.sampled_from(["12", "-7", "0"]),
+        "bool": st.booleans(), "list": st.lists(_scalar, max_size=3), "dict": st.dictionaries(st.sampled_from(SIMPLE_KEYS), _scalar, max_size=3),
+        "null": st.none(), "missing": st.none(),
+    }[leaf_kind]
+    leaf = draw(leaf)
+    odd = draw(st.integers(0, 9)) == 0
+    depth = draw(st.integers(1, 4))
     steps = []
-    node = doc
-    for _ in range(draw(st.integers(1, 4))):
-        if isinstance(node, dict) and node and draw(st.integers(0, 3)) > 0:
-            k = draw(st.sampled_from(sorted(node)))
-            steps.append(["k", k])
-            node = node[k]
-        elif isinstance(node, list) and node and draw(st.integers(0, 3)) > 0:
-            i = draw(st.integers(0, len(node) - 1))
-            steps.append(["i", i])
-            node = node[i]
+    for _ in range(depth):
+        if draw(st.integers(0, 2)) == 0:
+            steps.append(["i", draw(st.integers(0, 2))])
         else:
-            # a missing key / out-of-range index / a step of the wrong kind
-            steps.append(draw(st.sampled_from([["k", "nope"], ["i", 7], ["k", "a"], ["i", 0]])))
-            break
+            steps.append(["k", draw(st.sampled_from(ODD_KEYS if odd else SIMPLE_KEYS))])
+    if steps[0][0] == "i" and draw(st.booleans()):
+        steps[0] = ["k", draw(st.sampled_from(SIMPLE_KEYS))]
+    node = leaf
+    build = steps if leaf_kind != "missing" else steps[:-1]
+    if leaf_kind == "missing":
+        node = draw(st.sampled_from([{}, [], 1, "s", {"zz": 1}]))
+        if steps[-1][0] == "k" and isinstance(node, dict) and steps[-1][1] in node:
+            node = {}
+        if steps[-1][0] == "i" and isinstance(node, list):
+            node = []
+    for kind, x in reversed(build):
+        if kind == "k":
+            d = {k: draw(_sib) for k in draw(st.lists(st.sampled_from(SIMPLE_KEYS), max_size=2, unique=True)) if k != x}
+            d[x] = node
+            node = d
+        else:
+            node = [draw(_sib) for _ in range(x)] + [node] + [draw(_sib) for _ in range(draw(st.integers(0, 1)))]
+    doc = node
+    if not isinstance(doc, (dict, list)):
+        doc = {"a": doc}
+        steps = [["k", "a"]] + steps
+    if leaf_kind in ("int", "float"):
+        cast = draw(st.sampled_from([None, None, "NUMBER(10,2)", "FLOAT", "VARCHAR"] + (["INT"] if leaf_kind == "int" else [])))
+        wrapper = None
+        context = draw(st.sampled_from(["select", "eq", "gt-and", "or", "not", "arith", "between", "in", "case-when", "where", "is-null"]))
+    elif leaf_kind == "numeric-str":
+        cast = draw(st.sampled_from(["INT", "NUMBER(10,2)", "VARCHAR", None]))
+        wrapper = None
+        context = draw(st.sampled_from(["select", "eq", "gt-and", "between", "arith", "where"]))
+    elif leaf_kind == "str":
+        cast = draw(st.sampled_from([None, "VARCHAR", "STRING", "TEXT"]))
+        wrapper = draw(st.sampled_from([None, None, "UPPER", "LOWER", "TRIM"]))
+        context = draw(st.sampled_from(["select", "eq", "or", "not", "in", "case-when", "where", "is-null"]))
+    elif leaf_kind == "bool":
+        cast = draw(st.sampled_from([None, None, "BOOLEAN", "VARCHAR"]))
+        wrapper = None
+        context = draw(st.sampled_from(["select", "eq", "not-direct", "and-direct", "where-direct", "is-null", "case-when"]))
+    elif leaf_kind in ("list", "dict"):
+        cast = draw(st.sampled_from([None, None, "VARCHAR"]))
+        wrapper = draw(st.sampled_from([None, "ARRAY_SIZE", "ARRAY_SIZE"])) if cast is None else None
+        context = draw(st.sampled_from(["select", "select", "is-null", "arith", "eq", "between"])) if wrapper else draw(st.sampled_from(["select", "is-null"]))
+    else:
+        cast = draw(st.sampled_from(CASTS))
+        wrapper = draw(st.sampled_from([None, None, "UPPER", "ARRAY_SIZE"])) if cast in (None, "VARCHAR") else None
+        if wrapper == "ARRAY_SIZE":
+            cast = None
+        context = draw(st.sampled_from(["select", "is-null"]))
     return {
         "doc": doc,
         "steps": steps,
         "syntax": draw(st.sampled_from(SYNTAXES)),
         "source": draw(st.sampled_from(SOURCES)),
-        "cast": draw(st.sampled_from(CASTS)),
-        "wrapper": draw(st.sampled_from(WRAPPERS)),
-        "context": draw(st.sampled_from(CONTEXTS)),
+        "cast": cast,
+        "wrapper": wrapper,
+        "context": context,
     }
 
 
@@ -178,7 +231,7 @@ def run_path(case, ctx: Ctx) -> None:
             elif cast == "FLOAT":
                 val, kind = float(val), "float"
             else:
-                val, kind = Decimal(str(val)).quantize(Decimal("0.01")), "decimal"
+                val, kind = sfref.to_decimal(val if not isinstance(val, float) else repr(val), 10, 2), "decimal"  # half away from zero
         else:
             kind = {"INT": "int", "FLOAT": "float"}.get(cast, "decimal")
     elif cast == "BOOLEAN":
@@ -209,6 +262,15 @@ def run_path(case, ctx: Ctx) -> None:
         sql, mode, want = f"SELECT ({expr}) IS NULL AS R{frm}", "bool", (val is None if kind != "variant" else member is MISSING)
         if kind == "variant" and member is None:
             raise InvalidCase()  # a JSON null member IS NULL is false in Snowflake but the property fixes only the ::varchar behaviour
+    elif context in ("not-direct", "and-direct", "where-direct"):
+        if not isinstance(member, bool) or cast not in (None, "BOOLEAN"):
+            raise InvalidCase()
+        if context == "not-direct":
+            sql, mode, want = f"SELECT NOT {expr} AS R{frm}", "bool", not member
+        elif context == "and-direct":
+            sql, mode, want = f"SELECT {expr} AND 1 = 1 AS R{frm}", "bool", member
+        else:
+            sql, mode, want = f"SELECT COUNT(*) AS R FROM (SELECT 1 AS ONE{', V' if source == 'column' else ''}{frm}) Q WHERE {expr}", "number", 1 if member else 0
     elif lit is None:
         sql, mode, context = f"SELECT {expr} AS R{frm}", "value", "select"
     elif context == "eq":
